@@ -2638,3 +2638,362 @@ Proof.
     eapply view_ok_pop_none; [|pose proof (V y t Ht Hvt (fun F => F)) as Vy; rewrite Hb in Vy; exact Vy].
     intros k M _. apply (Hother y t k M Ht Hne).
 Qed.
+
+(* ---- "session joined": the members of that moment are sent to the new member ---- *)
+Lemma map_fst_entries (f : N -> N) l : map fst (map (fun m => (m, f m)) l) = l.
+Proof. induction l as [|a l IH]; cbn; [reflexivity|now rewrite IH]. Qed.
+
+Lemma J_deliver_asj h g p rest b r sid i : J h g -> h_bus h = p :: rest -> p_subj p = SubjBackendRoom b r ->
+  p_msg p = ASessionJoined sid i ->
+  J (fst (deliver_pub (set_bus h rest) p)) (gouts g (snd (deliver_pub (set_bus h rest) p))).
+Proof.
+  intros [H V] Hb Hsu Hpm. set (h0 := set_bus h rest). unfold deliver_pub. rewrite Hsu, Hpm.
+  assert (Hother : forall y s k M, get_sess h y = Some s -> y <> sid -> pub_op y k (s_join s) M p = None).
+  { intros y s k M _ Hne. unfold pub_op. rewrite Hsu, Hpm. destruct (N.eqb_spec sid y); [congruence|]. now rewrite andb_false_r. }
+  assert (H0 : Jh h0 g) by (eapply Jh_pop; eauto).
+  (* nothing is sent: the notice had no effect on any view *)
+  assert (Hnone : (forall s M, get_sess h sid = Some s -> is_virtual (s_kind s) = false -> s_room s = Some (b, r) ->
+                     mem_of h (b, r) = Some M -> filter (fun m => negb (N.eqb m sid)) M = []) -> J h0 g).
+  { intros Hemp. split; [exact H0|]. intros y s Hs Hv _. pose proof (V y s Hs Hv (fun F => F)) as Vy. rewrite Hb in Vy.
+    cbn [h_bus set_bus h0]. destruct (N.eqb_spec y sid) as [->|Hne].
+    2:{ eapply view_ok_pop_none; [|exact Vy]. intros k M _. now apply (Hother y s k M Hs). }
+    unfold view_ok in *. destruct (s_room s) as [k|] eqn:Hk; [|exact Vy].
+    destruct Vy as [[]|(M & V0 & A & B & C & D)]. right. exists M, V0. repeat split; auto. intros z. specialize (D z).
+    rewrite bus_ops_cons in D. unfold pub_op at 1 in D. rewrite Hsu, Hpm, N.eqb_refl, andb_true_r in D.
+    destruct (pair_eqb_spec (b, r) k) as [<-|]; [|exact D].
+    rewrite (Hemp s M Hs Hv Hk A) in D. exact D. }
+  change (room_of h0 (b, r)) with (room_of h (b, r)). destruct (room_of h (b, r)) as [rm|] eqn:Hrm.
+  2:{ apply Hnone. intros s M _ _ _ HM. unfold mem_of in HM. rewrite Hrm in HM. discriminate. }
+  set (others := filter (fun m => negb (N.eqb m sid)) (r_members rm)).
+  destruct others as [|e0 oth] eqn:Hoth.
+  { apply Hnone. intros s M _ _ _ HM. unfold mem_of in HM. rewrite Hrm in HM. injection HM as <-. exact Hoth. }
+  rewrite <- Hoth. cbn [fst snd]. rewrite gouts_nil.
+  set (entries := map (fun m => (m, match get_sess h0 m with Some s => sess_userid h0 m s | None => 0 end)) others).
+  set (h1 := publish h0 (SubjSession sid) (ARoomEvent (SJoin entries))).
+  (* the flag notices are neutral *)
+  assert (Hfl : forall l hh, Jg none2 no1 hh g ->
+            Jg none2 no1 (fold_left (fun hh m => match get_sess hh m with
+                                                 | Some s => if is_virtual (s_kind s) && negb (N.eqb (s_flags s) 0)
+                                                             then publish hh (SubjSession sid) (AEvent (SFlags m (s_flags s)) 0 false) else hh
+                                                 | None => hh end) l hh) g).
+  { induction l as [|a l IH]; intros hh Hh; cbn [fold_left]; [exact Hh|]. apply IH. destruct (get_sess hh a) as [sa|]; [|exact Hh].
+    destruct (is_virtual (s_kind sa) && negb (N.eqb (s_flags sa) 0)); [|exact Hh]. now apply Jg_publish_neutral. }
+  apply Hfl. split.
+  - apply Jh_publish; [exact H0|exact I|]. intros b' r' x i' s _ Hm. discriminate.
+  - unfold h1. rewrite bus_publish. cbn [h_bus set_bus h0 h_clock set_clock]. intros y s Hs Hv _.
+    change (get_sess h y = Some s) in Hs. pose proof (V y s Hs Hv (fun F => F)) as Vy. rewrite Hb in Vy.
+    change (mem_of (publish h0 (SubjSession sid) (ARoomEvent (SJoin entries)))) with (mem_of h).
+    destruct (N.eqb_spec y sid) as [->|Hne].
+    2:{ apply view_ok_app_none.
+        - intros k M _. unfold pub_op. cbn [p_subj p_msg]. destruct (N.eqb_spec sid y); [congruence|reflexivity].
+        - eapply view_ok_pop_none; [|exact Vy]. intros k M _. now apply (Hother y s k M Hs). }
+    unfold view_ok in *. destruct (s_room s) as [k|] eqn:Hk; [|exact Vy].
+    destruct Vy as [[]|(M & V0 & A & B & C & D)]. right. exists M, V0. repeat split; auto. intros z. specialize (D z).
+    destruct (j_asj _ _ H p b r sid i s ltac:(rewrite Hb; now left) Hsu Hpm Hs) as [Hn|Hkk]; [congruence|].
+    assert (k = (b, r)) by congruence. subst k.
+    assert (M = r_members rm) by (unfold mem_of in A; rewrite Hrm in A; cbn in A; congruence). subst M.
+    rewrite bus_ops_cons in D. unfold pub_op at 1 in D. rewrite Hsu, Hpm, pair_eqb_refl, N.eqb_refl in D. cbn [andb opt_list app] in D.
+    fold others in D. rewrite after_cons in D. cbn [vop_after] in D.
+    rewrite bus_ops_app, bus_ops_single. unfold pub_op. cbn [p_subj p_msg p_time]. rewrite N.eqb_refl.
+    assert (Ht : (h_clock h <? s_join s) = false) by (apply N.ltb_ge; eapply (j_join _ _ H); eauto).
+    rewrite Ht. cbn [negb andb msg_op opt_list]. rewrite after_snoc. cbn [vop_after]. unfold entries. rewrite map_fst_entries.
+    destruct (nmem z others) eqn:Ez.
+    + cbn [orb]. unfold others in Ez. rewrite nmem_filter in Ez. apply andb_true_iff in Ez as [Ez _]. now rewrite Ez.
+    + cbn [orb] in *. exact D.
+Qed.
+
+(* ---- plain messages through the bus ---- *)
+Lemma WJ_recv_plain h g x m sender co t : msg_irr m = true -> WJ none2 no1 h g -> WJr none2 no1 g (recv_event h x m sender co false t).
+Proof.
+  intros Hm HW. unfold recv_event. destruct (get_sess h x) as [s|]; [|exact HW].
+  destruct (N.eqb sender x && negb (N.eqb sender 0)); [exact HW|]. destruct (co && negb (in_call h x s)); [exact HW|].
+  cbn [andb]. now apply WJ_send_irr.
+Qed.
+
+Lemma apply_view_room_same rn V : rn <> 0 -> apply_view (Some (rn, V)) (SRoom rn) = Some (rn, V).
+Proof. intros Hrn. destruct rn as [|q]; [contradiction|]. cbn [apply_view]. now rewrite N.eqb_refl. Qed.
+
+(* the room's properties changed: the notice names the room the receiver is in *)
+Definition vsame (h h' : hub) : Prop := forall y, option_map vcore (get_sess h' y) = option_map vcore (get_sess h y).
+
+Lemma WJ_send_room_same h g x s k : WJ none2 no1 h g -> get_sess h x = Some s -> is_virtual (s_kind s) = false ->
+  s_room s = Some k -> snd k <> 0 ->
+  WJr none2 no1 g (send_session h x (SRoom (snd k))) /\ vsame h (fst (send_session h x (SRoom (snd k)))).
+Proof.
+  intros [W [H V0]] Hs Hv Hk Hk0. rename V0 into V.
+  assert (Wr : WFg none2 none1 (fst (send_session h x (SRoom (snd k))))) by now apply wf_send_session.
+  rewrite send_session_eq, (target_nonvirtual h x s Hs Hv), (deliver_to_session_eq h x _ s Hs) in *. cbn [filtered seen_after] in *.
+  assert (Hle : x <= h_nextsid h) by (eapply (j_live _ _ H); eauto).
+  pose proof (V x s Hs Hv (fun F => F)) as Vx. unfold view_ok in Vx. rewrite Hk in Vx.
+  destruct Vx as [[]|(M & V0 & A & B & C & D)].
+  assert (Hsame : apply_view (Some (snd k, V0)) (SRoom (snd k)) = Some (snd k, V0)).
+  { now apply apply_view_room_same. }
+  assert (T : forall s7 o2, vcore s7 = vcore s -> (s_conn s7 <> None -> s_pending s7 = []) ->
+            (forall m, In m (s_pending s7) -> no_hello m = true) ->
+            (forall c0, g_bind (gouts g o2) c0 = g_bind g c0) -> (forall y, y <> x -> g_view (gouts g o2) y = g_view g y) ->
+            replay (s_pending s7) (g_view (gouts g o2) x) = Some (snd k, V0) ->
+            Jg none2 no1 (put_sess h x s7) (gouts g o2) /\ vsame h (put_sess h x s7)).
+  { intros s7 o2 F1 F2 F3 Gb Gv Gr. pose proof (vcore_eq _ _ F1) as (Tk & Tb & Tr & Tc & Ts & Tj). split; [split|].
+    - apply (Jh_gview _ g _ x); [|exact Gb|exact Gv|exact Hle]. apply (Jh_put h g x s s7 H Hs).
+      + intros q b r i Hq Hsu Hmq. rewrite Tr. eapply (j_asj _ _ H); eauto.
+      + rewrite Tj. eapply (j_join _ _ H); eauto.
+      + intros k' Hk'. rewrite Tb. eapply (j_backend _ _ H); eauto. congruence.
+      + exact F2.
+      + exact F3.
+      + intros Hvv. rewrite Tc. apply (j_vconn _ _ H x s Hs). congruence.
+      + intros c0. congruence.
+    - intros y t Ht Hvt _. rewrite get_put in Ht. destruct (N.eqb_spec y x) as [->|Hne].
+      + injection Ht as <-. unfold view_ok. rewrite Tr, Hk. right. exists M, V0. rewrite Ts, Tj. repeat split; auto.
+      + rewrite Gv by exact Hne. now apply V.
+    - intros y. rewrite get_put. destruct (N.eqb_spec y x) as [->|]; [rewrite Hs; cbn; now rewrite F1|reflexivity]. }
+  destruct (s_conn s) as [c0|] eqn:Hc.
+  - cbn [is_closing fst snd] in *.
+    assert (Hp0 : s_pending s = []) by (apply (j_pc _ _ H x s Hs); congruence).
+    assert (Hb0 : g_bind g c0 = Some x) by (apply (j_bind _ _ H x s c0 Hs Hc)).
+    assert (TT : Jg none2 no1 (put_sess h x s) (gouts g [ToConn c0 (SRoom (snd k))]) /\ vsame h (put_sess h x s)).
+    { apply T; auto.
+    + intros m. rewrite Hp0. intros [].
+    + intros c1. rewrite gouts_cons, gouts_nil, (gout_msg g c0 (SRoom (snd k)) x eq_refl Hb0). reflexivity.
+    + intros y Hy. rewrite gouts_cons, gouts_nil, (gout_msg g c0 (SRoom (snd k)) x eq_refl Hb0). cbn [g_view].
+      destruct (N.eqb_spec y x); [contradiction|reflexivity].
+    + rewrite gouts_cons, gouts_nil, (gout_msg g c0 (SRoom (snd k)) x eq_refl Hb0). cbn [g_view]. rewrite N.eqb_refl, Hp0.
+      rewrite Hp0 in B. cbn [replay fold_left] in *. now rewrite B. }
+    destruct TT as [T1 T2]. split; [split; assumption|exact T2].
+  - cbn [fst snd] in *.
+    assert (TT : Jg none2 no1 (put_sess h x (sess_pending s (enqueue (s_pending s) (SRoom (snd k))))) (gouts g []) /\
+                 vsame h (put_sess h x (sess_pending s (enqueue (s_pending s) (SRoom (snd k)))))).
+    { apply T; auto.
+    + change (s_conn (sess_pending s (enqueue (s_pending s) (SRoom (snd k))))) with (s_conn s). rewrite Hc. intros Hn. contradiction.
+    + intros m Hm. change (In m (enqueue (s_pending s) (SRoom (snd k)))) in Hm. rewrite enqueue_plain in Hm by reflexivity.
+      apply in_app_iff in Hm as [Hm|[<-|[]]]; [|reflexivity]. eapply (j_nohello _ _ H x s); eauto.
+    + change (replay (enqueue (s_pending s) (SRoom (snd k))) (g_view g x) = Some (snd k, V0)). rewrite enqueue_plain by reflexivity.
+      rewrite replay_app, B. exact Hsame. }
+    destruct TT as [T1 T2]. split; [split; assumption|exact T2].
+Qed.
+
+Lemma WJ_deliver_room_aevent h g b r m sender co t : WJ none2 no1 h g ->
+  msg_irr m = true \/ (m = SRoom r /\ r <> 0) ->
+  WJr none2 no1 g (fold_sessions h (room_listeners h (b, r)) (fun hh x => recv_event hh x m sender co false t)).
+Proof.
+  intros HW [Hm|[-> Hr0]].
+  - apply WJ_fold_sessions; [|exact HW]. intros hh gg x Hh. now apply WJ_recv_plain.
+  - assert (Hspec : forall y, In y (room_listeners h (b, r)) -> exists s, get_sess h y = Some s /\ is_virtual (s_kind s) = false /\ s_room s = Some (b, r)).
+    { intros y Hy. apply room_listener_spec in Hy as (s & A & B & C). exists s. split; [|auto].
+      apply In_aget_nodup; [apply (j_keys _ _ (proj1 (proj2 HW)))|exact A]. }
+    revert Hspec. generalize (room_listeners h (b, r)) as L. intros L. revert h g HW.
+    induction L as [|x L IH]; intros h g HW HL; [exact HW|].
+    rewrite fold_sessions_cons.
+    assert (Hstep : WJr none2 no1 g (recv_event h x (SRoom r) sender co false t) /\ vsame h (fst (recv_event h x (SRoom r) sender co false t))).
+    { destruct (HL x (or_introl eq_refl)) as (s & Hs & Hv & Hk). unfold recv_event. rewrite Hs.
+      destruct (N.eqb sender x && negb (N.eqb sender 0)); [split; [exact HW|intros y; reflexivity]|].
+      destruct (co && negb (in_call h x s)); [split; [exact HW|intros y; reflexivity]|]. cbn [andb].
+      apply (WJ_send_room_same h g x s (b, r) HW Hs Hv Hk Hr0). }
+    destruct Hstep as [S1 S2]. destruct (recv_event h x (SRoom r) sender co false t) as [h1 o1]. unfold WJr in S1. cbn [fst snd] in *.
+    assert (HL1 : forall y, In y L -> exists s, get_sess h1 y = Some s /\ is_virtual (s_kind s) = false /\ s_room s = Some (b, r)).
+    { intros y Hy. destruct (HL y (or_intror Hy)) as (s & Hs & Hv & Hk). specialize (S2 y). rewrite Hs in S2. cbn in S2.
+      destruct (get_sess h1 y) as [s1|]; [|discriminate]. cbn in S2. exists s1. split; [reflexivity|].
+      assert (Hc : vcore s1 = vcore s) by congruence. apply vcore_eq in Hc as (A & _ & C & _). split; congruence. }
+    specialize (IH h1 (gouts g o1) S1 HL1). destruct (fold_sessions h1 L _) as [h2 o2]. unfold WJr in *. cbn [fst snd] in *.
+    now rewrite gouts_app.
+Qed.
+
+(* ---- kick through the bus, permissions ---- *)
+Lemma J_deliver_kick h g sid s : WF h -> J h g -> get_sess h sid = Some s ->
+  let res := (let '(h1, o1) := leave_room h sid false in
+              let '(h2, o2) := send_session h1 sid (SBye B_room_session_reconnected) in
+              let '(h3, o3) := close_session h2 sid in (h3, o1 ++ o2 ++ o3)) in
+  J (fst res) (gouts g (snd res)).
+Proof.
+  intros W HJ Hs. cbv zeta. unfold J, WF in *.
+  pose proof (Jg_leave_room none2 none1 no1 h g sid false W HJ) as J1. pose proof (wf_leave_room none2 none1 h sid false W) as W1.
+  destruct (leave_room h sid false) as [h1 o1]. cbn [fst snd] in *.
+  pose proof (Jg_send_irr none2 (or_sid no1 sid) h1 (gouts g o1) sid (SBye B_room_session_reconnected) eq_refl W1 J1) as J2.
+  pose proof (wf_send_session none2 h1 sid (SBye B_room_session_reconnected) W1) as W2.
+  destruct (send_session h1 sid (SBye B_room_session_reconnected)) as [h2 o2]. cbn [fst snd] in *.
+  pose proof (Jg_close_session none2 none1 (or_sid no1 sid) h2 _ sid W2 J2) as J3. pose proof (close_session_gone h2 sid) as G3.
+  destruct (close_session h2 sid) as [h3 o3]. cbn [fst snd] in *. rewrite !gouts_app.
+  now apply Jg_drop_exempt with (sid := sid).
+Qed.
+
+(* ---- the room's handling of a request of the room API ---- *)
+Lemma Jg_del_room xr xs h g k : Jg xr xs h g -> Jg (or_room xr k) xs (set_rooms h (pdel (h_rooms h) k)) g.
+Proof.
+  intros [H V]. split.
+  - apply (Jh_fields h _ g H); try reflexivity; try apply N.le_refl. intros k' r. rewrite room_of_set_rooms, pget_pdel.
+    destruct (pair_eqb k' k); [discriminate|apply (j_room0 _ _ H)].
+  - intros x s Hs Hv Hx. specialize (V x s Hs Hv Hx). unfold view_ok in *. destruct (s_room s) as [k'|]; [|exact V].
+    destruct (pair_eqb_spec k' k) as [->|Hne]; [left; now right|].
+    destruct V as [V|(M & V0 & A & B)]; [left; now left|right]. exists M, V0. split; [|exact B].
+    rewrite mem_of_set_rooms, pget_pdel. destruct (pair_eqb_spec k' k); [contradiction|exact A].
+Qed.
+Lemma Jg_drop_room xr xs h g k : Jg (or_room xr k) xs h g -> (forall x s, get_sess h x = Some s -> s_room s <> Some k) -> Jg xr xs h g.
+Proof.
+  intros [H V] Hno. split; [exact H|]. intros x s Hs Hv Hx. specialize (V x s Hs Hv Hx). unfold view_ok in *.
+  destruct (s_room s) as [k'|] eqn:Hk; [|exact V]. destruct V as [[V|V]|V]; [now left| |now right].
+  subst k'. exfalso. eapply Hno; eauto.
+Qed.
+
+Lemma Jg_delete_member xr xs hh gg m : WFg xr none1 hh -> Jg xr xs hh gg ->
+  Jg xr xs (fst (delete_member hh m)) (gouts gg (snd (delete_member hh m))).
+Proof.
+  intros W HJ. unfold delete_member. destruct (get_sess hh m) as [s|] eqn:Hs; [|exact HJ].
+  pose proof (Jg_leave_room xr none1 xs hh gg m true W HJ) as J1.
+  destruct (leave_room_sid hh m true s Hs) as (s1 & Hs1 & Hr1 & K1 & _).
+  destruct (leave_room hh m true) as [h2 o1]. cbn [fst snd] in *.
+  destruct (is_virtual (s_kind s)) eqn:Hv.
+  - cbn [fst snd]. destruct J1 as [H1 V1]. split; [exact H1|]. apply (Jv_drop_virtual xr xs h2 _ _ m V1).
+    intros t Ht. assert (t = s1) by congruence. subst t. congruence.
+  - pose proof (Jg_send_room0 xr xs h2 (gouts gg o1) m s1 J1 Hs1 Hr1 ltac:(congruence)) as J2.
+    destruct (send_session h2 m (SRoom 0)) as [h3 o2]. cbn [fst snd] in *. now rewrite gouts_app.
+Qed.
+
+Lemma Jg_delete_members xs k members : forall hh gg,
+  WFg (or_room none2 k) none1 hh -> room_of hh k = None -> Jg (or_room none2 k) xs hh gg ->
+  Jg (or_room none2 k) xs (fst (fold_sessions hh members delete_member)) (gouts gg (snd (fold_sessions hh members delete_member))).
+Proof.
+  induction members as [|m members IH]; intros hh gg W Hk HJ; [exact HJ|].
+  rewrite fold_sessions_cons. destruct (wf_delete_member none2 k hh m W Hk) as (W1 & Hk1 & _).
+  pose proof (Jg_delete_member (or_room none2 k) xs hh gg m W HJ) as J1.
+  destruct (delete_member hh m) as [h1 o1]. cbn [fst snd] in *.
+  specialize (IH h1 (gouts gg o1) W1 Hk1 J1). destruct (fold_sessions h1 members delete_member) as [h2 o2]. cbn [fst snd] in *.
+  now rewrite gouts_app.
+Qed.
+
+Lemma quiet_fold_left_same {A} (f : hub -> A -> hub) l : (forall hh a, same hh (f hh a)) -> forall h, same h (fold_left f l h).
+Proof.
+  intros Hf. induction l as [|a l IH]; intros h; cbn [fold_left]; [apply same_refl|]. eapply same_trans; [apply Hf|apply IH].
+Qed.
+
+Lemma J_room_request h g k q : WF h -> J h g -> J (fst (room_request h k q)) (gouts g (snd (room_request h k q))).
+Proof.
+  unfold WF, J. intros W HJ. unfold room_request. destruct (room_of h k) as [r|] eqn:Hr; [|exact HJ].
+  destruct q as [|users rs|tag|l|l|ic|tag].
+  - (* delete *)
+    match goal with |- context [fold_sessions h ?int ?f] => set (internals := int); set (fdel := f) end.
+    assert (Q0 : quiet h (fold_sessions h internals fdel)) by (apply quiet_fold_sessions; intros hh x; now apply quiet_send_irr).
+    assert (Eq0 : equiv h (fst (fold_sessions h internals fdel))).
+    { apply (wf_fold_sessions (fun hh => equiv h hh)); [apply equiv_refl|].
+      intros hh x Ehh. eapply equiv_trans; [exact Ehh|]. apply (equiv_send_session hh x SRoomDeleted eq_refl). }
+    destruct (fold_sessions h internals fdel) as [h0 o0]. cbn [fst] in Eq0.
+    pose proof (Jg_quiet none2 no1 h g (h0, o0) Q0 HJ) as J0. cbn [fst snd] in J0.
+    assert (W0 : WFg none2 none1 h0) by (eapply wf_equiv; eauto).
+    assert (Hr0 : room_of h0 k = Some r) by (unfold room_of; rewrite (eq_rooms _ _ Eq0); exact Hr).
+    set (h1 := set_rooms h0 (pdel (h_rooms h0) k)).
+    assert (W1 : WFg (or_room none2 k) none1 h1) by (apply wf_del_room; exact W0).
+    assert (Hk1 : room_of h1 k = None) by (unfold h1, room_of; hsimpl; apply pget_pdel_same).
+    pose proof (Jg_delete_members no1 k (r_members r) h1 (gouts g o0) W1 Hk1 (Jg_del_room _ _ _ _ k J0)) as J9.
+    destruct (wf_delete_members none2 k (r_members r) h1 W1 Hk1) as (W9 & Hk9 & Hc9).
+    destruct (fold_sessions h1 (r_members r) delete_member) as [h9 o9]. cbn [fst snd] in *. rewrite gouts_app.
+    apply (Jg_drop_room none2 no1 h9 _ k J9).
+    intros x s9 Hx Hroom. destruct (Hc9 x s9 Hx Hroom) as [Hnin [s1 [Hs1 Hr1]]].
+    apply Hnin. assert (Hs0 : get_sess h0 x = Some s1) by exact Hs1.
+    destruct (wf_room _ _ h0 W0 x s1 k Hs0 Hr1) as [[]|[r0 [Hr00 Hm0]]].
+    rewrite Hr0 in Hr00. injection Hr00 as <-. exact Hm0.
+  - exact HJ.
+  - (* update *)
+    destruct (N.eqb (r_props r) (tag + 1)); [exact HJ|]. cbn [fst snd]. rewrite gouts_nil.
+    apply Jg_publish_neutral; [reflexivity| |].
+    + cbn. split; [eapply (j_room0 _ _ (proj1 HJ)); eauto|]. exists (fst k). reflexivity.
+    + eapply Jg_same; [|exact HJ]. apply (same_room_update h k r); [exact Hr|reflexivity].
+  - cbn [fst snd]. rewrite gouts_nil. now apply Jg_publish_neutral.
+  - (* incall *)
+    match goal with |- context [fold_left ?f l (h, [])] => set (fic := f) end.
+    assert (G : forall acc, quiet h acc -> quiet h (fold_left fic l acc)).
+    { induction l as [|u l IH]; intros acc Hacc; cbn [fold_left]; [exact Hacc|]. apply IH.
+      destruct acc as [hh oo]. unfold fic. destruct u as [[i icv] pm].
+      destruct i as [n|sid|kk|n]; try exact Hacc.
+      destruct (get_sess hh sid); [|exact Hacc].
+      destruct (N.testbit icv 0).
+      - destruct Hacc as [E I]. split; cbn [fst snd] in *; [eapply same_trans; [exact E|apply same_set_incall]|exact I].
+      - pose proof (quiet_leave_call (set_incall hh k sid false) sid) as Q. destruct (leave_call (set_incall hh k sid false) sid) as [h2 o2].
+        apply (quiet_seq h (hh, oo) (h2, o2) Hacc). eapply quiet_pre; [apply same_set_incall|exact Q]. }
+    specialize (G (h, []) (quiet_ret h)). destruct (fold_left fic l (h, [])) as [h1 outs]. cbn [fst snd].
+    pose proof (Jg_quiet none2 no1 h g (h1, outs) G HJ) as J1. cbn [fst snd] in J1. now apply Jg_publish_neutral.
+  - (* incall for everybody *)
+    destruct (N.testbit ic 0).
+    + match goal with |- context [filter ?f (filter ?g0 (r_members r))] => set (fresh := filter f (filter g0 (r_members r))); set (joiners := filter g0 (r_members r)) end.
+      destruct fresh as [|f0 fr]; [exact HJ|].
+      apply (Jg_quiet none2 no1 h g); [|exact HJ].
+      apply (quiet_pre h (fold_left (fun hh m => set_incall hh k m true) (f0 :: fr) h)); [apply quiet_fold_left_same; intros; apply same_set_incall|].
+      apply quiet_fold_sessions. intros hh x. now apply quiet_send_irr.
+    + destruct (r_incall r) eqn:Hic; [exact HJ|].
+      set (h1 := set_rooms h (pset (h_rooms h) k (mkroom (r_members r) [] (r_sessdata r) (r_transient r) (r_props r)))).
+      assert (E1 : same h h1) by (apply (same_room_update h k r); [exact Hr|reflexivity]).
+      match goal with |- context [fold_sessions h1 ?lv leave_call] => pose proof (quiet_fold_sessions lv leave_call quiet_leave_call h1) as Q2;
+        destruct (fold_sessions h1 lv leave_call) as [h2 o1] end.
+      match goal with |- context [fold_sessions h2 ?lv ?f] => pose proof (quiet_fold_sessions lv f (fun hh x => quiet_send_irr hh x (SPart 1) eq_refl eq_refl) h2) as Q3;
+        destruct (fold_sessions h2 lv f) as [h3 o2] end.
+      apply (Jg_quiet none2 no1 h g (h3, o1 ++ o2)); [|exact HJ]. eapply quiet_pre; [exact E1|]. apply (quiet_seq h1 (h2, o1) (h3, o2) Q2 Q3).
+  - cbn [fst snd]. rewrite gouts_nil. now apply Jg_publish_neutral.
+Qed.
+
+(* ---- one delivery ---- *)
+Lemma shape_irr p m sender co : pub_shape p -> p_msg p = AEvent m sender co ->
+  msg_irr m = true \/ exists b r, m = SRoom r /\ r <> 0 /\ p_subj p = SubjRoom b r.
+Proof.
+  unfold pub_shape. intros Hs Hm. rewrite Hm in Hs. destruct m; try contradiction; try (left; reflexivity).
+  right. destruct Hs as [H0 [b Hb]]. eauto.
+Qed.
+
+Lemma J_deliver h g : WF h -> J h g -> J (fst (deliver_at h 0)) (gouts g (snd (deliver_at h 0))).
+Proof.
+  unfold WF, J. intros W HJ. unfold deliver_at. destruct (h_bus h) as [|p rest] eqn:Hb; [exact HJ|]. cbn [take_nth].
+  set (h0 := set_bus h rest).
+  assert (W0 : WFg none2 none1 h0) by (eapply wf_equiv; [apply equiv_bus|exact W]).
+  assert (Hsh : pub_shape p) by (apply (j_shape _ _ (proj1 HJ)); rewrite Hb; now left).
+  assert (Hpop : (forall sid k tj M, pub_op sid k tj M p = None) -> Jg none2 no1 h0 g).
+  { intros Hn. now apply (Jg_pop_none none2 no1 h g p rest Hb Hn). }
+  unfold deliver_pub.
+  destruct (p_subj p) as [b r|b r|b u|sid|] eqn:Hsu; destruct (p_msg p) as [m sender co|m|x i|pm| |q] eqn:Hpm;
+    try (apply Hpop; intros; unfold pub_op; rewrite Hsu, ?Hpm; reflexivity).
+  - (* room, message *)
+    assert (J0 : Jg none2 no1 h0 g) by (apply Hpop; intros; unfold pub_op; rewrite Hsu, ?Hpm; reflexivity).
+    apply (WJ_deliver_room_aevent h0 g b r m sender co (p_time p) (conj W0 J0)).
+    destruct (shape_irr p m sender co Hsh Hpm) as [Hi|(b' & r' & -> & Hr' & Hs')]; [now left|right].
+    rewrite Hsu in Hs'. injection Hs' as _ <-. auto.
+  - (* room, join / leave event *)
+    apply (J_deliver_room_event h g p rest b r m W HJ Hb Hsu Hpm).
+  - (* session joined *)
+    pose proof (J_deliver_asj h g p rest b r x i HJ Hb Hsu Hpm) as JA. unfold deliver_pub in JA. rewrite Hsu, Hpm in JA. exact JA.
+  - (* room request *)
+    assert (J0 : Jg none2 no1 h0 g) by (apply Hpop; intros; unfold pub_op; rewrite Hsu, ?Hpm; reflexivity).
+    now apply J_room_request.
+  - (* user, message *)
+    assert (J0 : Jg none2 no1 h0 g) by (apply Hpop; intros; unfold pub_op; rewrite Hsu, ?Hpm; reflexivity).
+    apply (WJ_fold_sessions none2 no1 (user_listeners h0 b u) _); [|split; assumption].
+    intros hh gg y Hh. apply WJ_recv_plain; [|exact Hh].
+    destruct (shape_irr p m sender co Hsh Hpm) as [Hi|(b' & r' & _ & _ & Hs')]; [exact Hi|]. rewrite Hsu in Hs'. discriminate.
+  - (* session, message *)
+    assert (J0 : Jg none2 no1 h0 g) by (apply Hpop; intros; unfold pub_op; rewrite Hsu, ?Hpm; reflexivity).
+    destruct (get_sess h0 sid) as [s|]; [|exact J0]. destruct (is_virtual (s_kind s)); [exact J0|].
+    apply (WJ_recv_plain h0 g sid m sender co (p_time p)); [|split; assumption].
+    destruct (shape_irr p m sender co Hsh Hpm) as [Hi|(b' & r' & _ & _ & Hs')]; [exact Hi|]. rewrite Hsu in Hs'. discriminate.
+  - (* session, join event *)
+    apply (J_deliver_session_event h g p rest sid m HJ Hb Hsu Hpm).
+  - (* permissions *)
+    assert (J0 : Jg none2 no1 h0 g) by (apply Hpop; intros; unfold pub_op; rewrite Hsu, ?Hpm; reflexivity).
+    destruct (get_sess h0 sid) as [s|] eqn:Hs; [|exact J0]. destruct (is_virtual (s_kind s)); [exact J0|].
+    apply (Jg_quiet none2 no1 h0 g); [|exact J0]. eapply quiet_pre; [|apply quiet_revoke].
+    apply (same_put h0 sid s); [exact Hs|reflexivity|now apply pend_ok_eq].
+  - (* kick *)
+    assert (J0 : Jg none2 no1 h0 g) by (apply Hpop; intros; unfold pub_op; rewrite Hsu, ?Hpm; reflexivity).
+    destruct (get_sess h0 sid) as [s|] eqn:Hs; [|exact J0]. destruct (is_virtual (s_kind s)); [exact J0|].
+    now apply (J_deliver_kick h0 g sid s).
+Qed.
+
+(* ------------------------------------------------------------------ quiescent steps *)
+Lemma J_drain fuel : forall h g, WF h -> J h g -> J (fst (drain fuel h)) (gouts g (snd (drain fuel h))).
+Proof.
+  induction fuel as [|f IH]; intros h g W HJ; cbn [drain]; [exact HJ|].
+  destruct (h_bus h) eqn:Hb; [exact HJ|].
+  pose proof (J_deliver h g W HJ) as J1. pose proof (wf_deliver_at h 0 W) as W1.
+  destruct (deliver_at h 0) as [h1 o1]. cbn [fst snd] in *.
+  specialize (IH h1 (gouts g o1) W1 J1). destruct (drain f h1) as [h2 o2]. cbn [fst snd] in *. now rewrite gouts_app.
+Qed.
+
+Lemma J_qstep h g o : WF h -> J h g -> h_bus h = [] -> J (fst (qstep h o)) (gouts g (snd (qstep h o))).
+Proof.
+  intros W HJ Hb. unfold qstep. pose proof (J_step h g o W HJ Hb) as J1. pose proof (wf_step h o W) as W1.
+  destruct (step h o) as [h1 o1]. cbn [fst snd] in *.
+  pose proof (J_drain 500 h1 (gouts g o1) W1 J1) as J2. destruct (drain 500 h1) as [h2 o2]. cbn [fst snd] in *. now rewrite gouts_app.
+Qed.
